@@ -136,10 +136,19 @@ def handleEntry (o : Opts) (S : MState α) (rpath : List Name) (depth : Nat) (n 
       let e : Ent α := ⟨rpath, depth, n, isLink⟩
       if o.contentsFirst then .cont { S' with deferred := e :: S'.deferred }
       else if skippable o depth then .cont S' else .yield (.ok e) S'
+    else if depth == 0 && o.followRoot then
+      -- a starting point that is a link to a directory, followed only because it is one (-H): its
+      -- listing is pushed.  walkdir alone would report it at once even under `contents_first`
+      -- (its bookkeeping of deferred directories is then off by one); `process_dir` therefore
+      -- walks `LINK/` in that configuration, which walkdir sees as the directory itself, and
+      -- reports the starting point under its own spelling: deferred like any directory
+      let S' := { S with stack := frameOf rpath readable kids :: S.stack }
+      let e : Ent α := ⟨rpath, depth, n, false⟩
+      if o.contentsFirst then .cont { S' with deferred := e :: S'.deferred }
+      else if skippable o depth then .cont S' else .yield (.ok e) S'
     else
-      -- a link to a directory that is not followed: pushed only as a root under -H
-      let S' := if depth == 0 && o.followRoot then { S with stack := frameOf rpath readable kids :: S.stack } else S
-      if skippable o depth then .cont S' else .yield (.ok ⟨rpath, depth, n, false⟩) S'
+      -- a link to a directory that is not followed: an entry like any other
+      if skippable o depth then .cont S else .yield (.ok ⟨rpath, depth, n, false⟩) S
 
 /-- one iteration of `IntoIter::next` -/
 def step (o : Opts) (S : MState α) : Step α :=
@@ -243,9 +252,14 @@ theorem handleEntry_mu (o : Opts) (S : MState α) (rp : List Name) (d : Nat) (n 
           · injection h with h; subst h; simp only [MState.mu, hs, stackSize, List.length_cons]; omega
           · cases h
       · split at h
-        · injection h with h; subst h
-          split <;> simp only [MState.mu, hs, stackSize, List.length_cons] <;> omega
-        · cases h
+        · split at h
+          · injection h with h; subst h; simp only [MState.mu, hs, stackSize, List.length_cons]; omega
+          · split at h
+            · injection h with h; subst h; simp only [MState.mu, hs, stackSize, List.length_cons]; omega
+            · cases h
+        · split at h
+          · injection h with h; subst h; simp only [MState.mu, hs]; omega
+          · cases h
     · intro i S' h
       split at h
       · split at h
@@ -254,9 +268,14 @@ theorem handleEntry_mu (o : Opts) (S : MState α) (rp : List Name) (d : Nat) (n 
           · cases h
           · injection h with _ h; subst h; simp only [MState.mu, hs, stackSize, List.length_cons]; omega
       · split at h
-        · cases h
-        · injection h with _ h; subst h
-          split <;> simp only [MState.mu, hs, stackSize, List.length_cons] <;> omega
+        · split at h
+          · cases h
+          · split at h
+            · cases h
+            · injection h with _ h; subst h; simp only [MState.mu, hs, stackSize, List.length_cons]; omega
+        · split at h
+          · cases h
+          · injection h with _ h; subst h; simp only [MState.mu, hs]; omega
 
 theorem step_mu (o : Opts) (S : MState α) :
     (∀ S', step o S = .cont S' → S'.mu < S.mu) ∧ (∀ i S', step o S = .yield i S' → S'.mu < S.mu) := by
